@@ -137,6 +137,7 @@ void pmc_run(const char* config) {
     mv_init(); mvp::use_fast_stacks(true);
     mv_on_deadlock = on_deadlock;
     mv_time_deviations(strstr(extra, "tdev") != nullptr);
+    mv_tso(strstr(extra, "tso") != nullptr); mv_switch_points(0);     // built with -DPHOTON_VERIF for the TSC hook only
     st.prog.run(body);
     final_oracle("end", "");
     mv_fini(); G = nullptr;
@@ -165,6 +166,9 @@ static const PmcConfig CFG[] = {
     {"m:pW,pP,pnpa", 2, {0,0}, {0,0}, {0,0}, {0,0}, ""},
     {"m:W|u",        2, {1,2}, {0,0}, {0,0}, {0,0}, "notification without the lock"},
     {"s:W,W|a",      2, {1,2}, {0,0}, {0,0}, {0,0}, ""},
+    {"m:W|N:tso",    3, {1,2}, {0,0}, {1,1}, {2,3}, "x86-TSO store buffers"},
+    {"s:W|N:tso",    3, {1,2}, {0,0}, {1,1}, {2,3}, ""},
+    {"m:W,W|A:tso",  2, {1,1}, {0,0}, {1,1}, {2,2}, ""},
 };
 const PmcConfig* pmc_configs(int* n) { *n = sizeof CFG / sizeof CFG[0]; return CFG; }
 const char* pmc_property(void) { return "C03"; }
